@@ -467,6 +467,60 @@ func genBlockIndex(r *rand.Rand, emit func(core.Case), n int, g qGen, kind strin
 	}
 }
 
+// committed blocks go through the real event bus and the real indexer service
+func genService(r *rand.Rand, emit func(core.Case), n int, g qGen, kind string) {
+	for c := 0; c < n; c++ {
+		var ops []string
+		var hashes [][]byte
+		var txs [][]byte
+		h := int64(1 + r.Intn(3))
+		nb := 2 + r.Intn(5)
+		ctr := 0
+		for b := 0; b < nb; b++ {
+			nt := r.Intn(4)
+			items := make([]txItem, nt)
+			for i := range items {
+				ctr++
+				tx := []byte(fmt.Sprintf("stx-%d-%d", c, ctr))
+				if g.hostile && len(txs) > 0 && r.Intn(8) == 0 {
+					tx = txs[r.Intn(len(txs))]
+					featHist["duplicate-tx"]++
+				}
+				txs = append(txs, tx)
+				items[i] = txItem{Tx: tx, Events: g.txEvents(r)}
+				hashes = append(hashes, txHash(tx))
+			}
+			be, ee := g.txEvents(r), g.txEvents(r)
+			if r.Intn(4) == 0 { // the block index refuses the block's own events: its txs are committed all the same
+				ev := abci.Event{Type: "block", Attributes: []abci.EventAttribute{{Key: []byte("height"), Value: []byte("1"), Index: r.Intn(2) == 0}}}
+				if r.Intn(2) == 0 {
+					be = append(be, ev)
+				} else {
+					ee = append(ee, ev)
+				}
+				featHist["service-block-rejected"]++
+			}
+			ops = append(ops, fmt.Sprintf("svcblock height=%d begin=%s end=%s txs=%s", h, encTxEvents(be), encTxEvents(ee), encTxs(items)))
+			ops = append(ops, fmt.Sprintf("bhas height=%d", h))
+			if r.Intn(2) == 0 {
+				ops = append(ops, fmt.Sprintf("search q=%s ast=%s", hx(fmt.Sprintf("tx.height = %d", h)), encAst([]cond{{Key: "tx.height", Op: "eq", Kind: 'i', S: fmt.Sprint(h)}})))
+			}
+			h += int64(1 + r.Intn(2))
+			for s := r.Intn(2); s > 0; s-- {
+				ops = append(ops, searchOp("search", g, r, hashes))
+			}
+			if r.Intn(3) == 0 {
+				ops = append(ops, searchOp("bsearch", g, r, nil))
+			}
+		}
+		for _, hs := range hashes {
+			ops = append(ops, "get hash="+hx(string(hs)))
+		}
+		ops = append(ops, searchOp("search", g, r, hashes), searchOp("bsearch", g, r, nil))
+		emit(core.Case{Kind: kind, Ops: ops})
+	}
+}
+
 func gen(r *rand.Rand, tier string, emit func(core.Case)) {
 	n := 150
 	if tier == "thorough" {
@@ -480,4 +534,6 @@ func gen(r *rand.Rand, tier string, emit func(core.Case)) {
 	genTxIndex(r, emit, n/5, idxClean, "txindex-clean", true)
 	genBlockIndex(r, emit, n/2, idxClean, "blockindex-clean")
 	genBlockIndex(r, emit, n/2, idxHostile, "blockindex-hostile")
+	genService(r, emit, n/2, idxClean, "service-clean")
+	genService(r, emit, n/3, idxHostile, "service-hostile")
 }
